@@ -213,7 +213,27 @@ fn eval_o(sess: &mut Session, env: &Env, text: &str, case: Option<usize>) {
     let doc2 = Document::new(&out_s, &PlainEnglish, env.dict.as_ref());
     let cons2: Vec<Consulted> = doc2.get_tokens().iter().map(|t| consult(t, &out, env.dict.as_ref())).collect();
     let stable = cons.iter().map(|c| c.decisive()).eq(cons2.iter().map(|c| c.decisive()));
-    sess.monitor("case-stable-relex", stable);
+    // `lex_plural_digit` (lexing/mod.rs) takes `<ASCII alnum>['] s` as a word of its own when what
+    // follows is not an ASCII alphanumeric — a non-ASCII LETTER counts as a boundary there (`asé` is
+    // `as` + `é`), and only a lower-case `s` does it (`ASé` is one word): tokenisation depends on
+    // case at exactly this shape. The property's clauses are still checked on these texts (below and
+    // above); the hypothesis `CaseStable` of the idempotence theorem is not expected of them.
+    let plural_digit_shape = |t: &[char]| {
+        (0..t.len()).any(|j| {
+            t[j].is_ascii_alphanumeric() && {
+                let k = if t.get(j + 1) == Some(&'\'') { j + 2 } else { j + 1 };
+                matches!(t.get(k), Some('s') | Some('S')) && t.get(k + 1).is_some_and(|c| !c.is_ascii() && c.is_alphabetic())
+            }
+        })
+    };
+    if !stable && (plural_digit_shape(&src) || plural_digit_shape(&out)) {
+        sess.count("case-unstable:plural-digit-lexer-before-non-ascii-letter");
+    } else {
+        sess.monitor("case-stable-relex", stable);
+    }
+    if !stable {
+        sess.sample(json!({"case_stable_relex_failed_on": text, "title_cased": out_s}));
+    }
     // (4) idempotent
     let again = guarded(|| make_title_case_str(&out_s, &PlainEnglish, env.dict.as_ref()));
     match again {
@@ -347,7 +367,11 @@ pub fn run(ctx: &Ctx) {
     // whose canonical spelling has another length than a spelling that finds it
     let mut mismatches: Vec<Value> = vec![];
     let mut nwords = 0usize;
-    for w in dict.words_iter() {
+    // words_iter's order is a hash map's: sort, so that the sample below (and with it every text of
+    // this run) depends on the seed alone
+    let mut all_words: Vec<&[char]> = dict.words_iter().collect();
+    all_words.sort();
+    for w in all_words {
         nwords += 1;
         let md = dict.get_word_metadata(w);
         let ws: String = w.iter().collect();
